@@ -6,7 +6,7 @@ CONSTANTS
   MaxActions = 0
   ActionKinds = {"complete"}
   ErrCodes = {"e1"}
-  Deviations = {"F1", "F2"}
+  Deviations = {"F2"}
   SharedCatchPrev = TRUE
 VIEW View
 INVARIANT C01_QuiescentOK
